@@ -3,9 +3,9 @@
  "property": ["C08", "C09", "C14"],
  "entry": "h_gotheaders",
  "enforce": ["gotheaders"],
- "replace": ["callback_read_header", "callback_chunkedheader", "get_body_gotclen", "callback_read_toeof", "docallback", "fail", "die"],
+ "replace": ["callback_read_header", "callback_chunkedheader", "get_body_gotclen", "callback_read_toeof"],
  "annotate": ["http/http.c"],
- "defines": ["VERIF_HALLOC", "HTTP_N=24", "HTTP_HB=20", "HTTP_BODYMAX=8", "VERIF_STRMAX=24", "HTTP_MAYFAIL"],
+ "defines": ["VERIF_HALLOC", "HTTP_N=24", "HTTP_HB=20", "HTTP_BODYMAX=8", "VERIF_STRMAX=24", "HTTP_MAYFAIL", "VERIF_NO_DIRTY"],
  "thorough_defines": ["HTTP_N=40", "HTTP_HB=34", "VERIF_STRMAX=40"],
  "models": ["models/libc_string.c", "models/http_env.c", "models/libc_mem.c"],
  "cbmc": ["--malloc-may-fail", "--malloc-fail-null"],
@@ -15,7 +15,7 @@
  "allow_undefined": ["strtod", "strtoimax", "fprintf", "abort"],
  "timeout": 900,
  "assumptions": ["header block <= HTTP_HB bytes (BOUNDED: the two passes over the lines are unwound)", "sscanf: writes up to three ints, returns -1..3; strtoumax: C11 (models/http_env.c)",
-   "callback_read_header, callback_chunkedheader, get_body_gotclen, callback_read_toeof, docallback, fail, die: replaced by their contracts (enforced in their own groups); findeol, sgetline, http_findheader, imalloc are inlined",
+   "callback_read_header, callback_chunkedheader, get_body_gotclen, callback_read_toeof: replaced by their contracts (enforced in their own groups); findeol, sgetline, http_findheader, imalloc and the exits docallback, fail, die, http_request_cancel are inlined (real code; a contract replaced inside an unwound loop is instantiated once per iteration and exhausts cbmc's object numbering)",
    "malloc may fail (HTTP_MAYFAIL: die() is then allowed without an environment failure)"]
 }
 */
